@@ -33,6 +33,7 @@ import (
 type vf19Side struct {
 	chunks  [][]byte
 	term    int // -1 none, vf19EOF, vf19RErr
+	withDat bool // the terminal event is reported by the Read that returns the last bytes of the last chunk
 	rerr    error
 	wfailAt int // -1 none
 	werr    error
@@ -49,6 +50,9 @@ func (s *vf19Side) describe() map[string]any {
 	term := "none"
 	if s.term >= 0 {
 		term = vf19KindName(s.term)
+	}
+	if s.term >= 0 && s.withDat && len(s.chunks) > 0 {
+		term += "(same Read as the last data)"
 	}
 	return map[string]any{"chunk_sizes": sizes, "terminal": term, "write_fails_at": s.wfailAt, "gated_writes": s.gated, "max_read": s.maxRead}
 }
@@ -86,6 +90,7 @@ func vf19DrawSide(rt *rapid.T, side int, salt uint64, allowGate bool) *vf19Side 
 		s.term = vf19RErr
 		s.rerr = vf19ScriptErr(fmt.Sprintf("read side %d", side))
 	}
+	s.withDat = rapid.IntRange(0, 9).Draw(rt, lbl+"termWithData") < 5
 	if rapid.IntRange(0, 9).Draw(rt, lbl+"wfault") < 1 {
 		s.wfailAt = rapid.IntRange(0, 700).Draw(rt, lbl+"wfailAt")
 		s.werr = vf19ScriptErr(fmt.Sprintf("write side %d", side))
@@ -128,7 +133,11 @@ func vf19Setup(sc [2]*vf19Side) *vf19Case {
 func (s *vf19Side) events() []vf19Event {
 	var evs []vf19Event
 	for _, ch := range s.chunks {
-		evs = append(evs, vf19Event{kind: vf19Chunk, data: ch})
+		evs = append(evs, vf19Event{kind: vf19Chunk, data: ch, fin: -1})
+	}
+	if s.term >= 0 && s.withDat && len(evs) > 0 {
+		evs[len(evs)-1].fin, evs[len(evs)-1].finErr = s.term, s.rerr
+		return evs
 	}
 	switch s.term {
 	case vf19EOF:
@@ -176,6 +185,9 @@ func vf19Verdict(c *vf19Case, sc [2]*vf19Side, final bool, hist func() string) s
 	}
 	if len(c.terms) == 0 && !final && !c.returned {
 		return ""
+	}
+	if !final && !c.returned && c.tailParkedLocked() {
+		return "" // the last bytes (handed out with the terminal event) wait in a gated Write
 	}
 	if len(c.terms) > 0 || final {
 		if !c.returned {
@@ -227,6 +239,15 @@ func vf19RelayClasses(prefix string, c *vf19Case, sc [2]*vf19Side) (classes []st
 		if len(c.terms) > 1 {
 			classes = append(classes, prefix+"-several-terminals-seen")
 		}
+		if t.withData > 0 {
+			classes = append(classes, prefix+"-terminal-in-same-read-as-data")
+			if t.kind == vf19RErr {
+				classes = append(classes, prefix+"-read-error-in-same-read-as-data")
+				if _, ok := vf19Applicable(sc); ok {
+					classes = append(classes, prefix+"-read-error-with-data+other-side-healthy(complete-forwarding-checked)")
+				}
+			}
+		}
 	}
 	if _, ok := vf19Applicable(sc); ok {
 		classes = append(classes, prefix+"-one-side-ends(complete-forwarding-checked)")
@@ -248,11 +269,13 @@ func vf19RelayClasses(prefix string, c *vf19Case, sc [2]*vf19Side) (classes []st
 
 func TestVerifC19RelayLockstep(t *testing.T) {
 	e := ev.For("C19")
-	e.Rule("relay-lock: per side 0-4 chunks (1 B .. 70 KB, incl. io.Copy buffer size +-1), optional EOF/read error (at least one side ends), optional write fault after n bytes, optional gated writes (a Write parks until the plan allows it, Close unparks it), optional small reads; the plan is a generated global order of 'next event arrives on side X' / 'k parked writes on side X may complete'; quiescence (own parked tracking + goroutine dump for exited copiers) after every step; non-trivial = both sides had produced data the relay had read when the first terminal event was seen; fingerprint = script + plan")
+	e.Rule("relay-lock: per side 0-4 chunks (1 B .. 70 KB, incl. io.Copy buffer size +-1), optional EOF/read error (at least one side ends), reported in 50 % of the cases by the same Read call that returns the last bytes of the last chunk (n>0 with err), optional write fault after n bytes, optional gated writes (a Write parks until the plan allows it, Close unparks it), optional small reads; the plan is a generated global order of 'next event arrives on side X' / 'k parked writes on side X may complete'; quiescence (own parked tracking + goroutine dump for exited copiers) after every step; non-trivial = both sides had produced data the relay had read when the first terminal event was seen; fingerprint = script + plan")
 	e.Assume("io.Copy (standard library) and the Go scheduler are trusted; a scripted conn behaves like a socket: Close unblocks parked Read/Write with an error, EOF/read error are sticky")
 	e.Floor("relay-lock-data-both-ways-before-end/relay-lock", 0.15)
 	e.Floor("relay-lock-gated-writes/relay-lock", 0.20)
 	e.Floor("relay-lock-one-side-ends(complete-forwarding-checked)/relay-lock", 0.20)
+	e.Floor("relay-lock-terminal-in-same-read-as-data/relay-lock", 0.15)
+	e.Floor("relay-lock-read-error-with-data+other-side-healthy(complete-forwarding-checked)/relay-lock", 0.03)
 	rapid.Check(t, func(rt *rapid.T) {
 		sc := vf19DrawScript(rt, true)
 		c := vf19Setup(sc)
@@ -305,7 +328,7 @@ func TestVerifC19RelayLockstep(t *testing.T) {
 				rt.Fatalf("%s", msg)
 			}
 			c.mu.Lock()
-			done = len(c.terms) > 0 || c.returned
+			done = (len(c.terms) > 0 && !c.tailParkedLocked()) || c.returned
 			c.mu.Unlock()
 		}
 		if !done {
@@ -331,6 +354,8 @@ func TestVerifC19RelayLockstep(t *testing.T) {
 func TestVerifC19RelayFree(t *testing.T) {
 	e := ev.For("C19")
 	e.Rule("relay-free: same scripts without gates; one producer goroutine per side makes the events available after generated delays (0-300 us), Writes are delayed by generated amounts; after both producers finished the harness waits for quiescence and evaluates the same oracles (the prefix oracle runs inside every Write); meant for -race; non-trivial as above")
+	e.Floor("relay-free-terminal-in-same-read-as-data/relay-free", 0.15)
+	e.Floor("relay-free-read-error-with-data+other-side-healthy(complete-forwarding-checked)/relay-free", 0.03)
 	rapid.Check(t, func(rt *rapid.T) {
 		sc := vf19DrawScript(rt, false)
 		c := vf19Setup(sc)
